@@ -165,6 +165,9 @@ func (r *Decoder) parseRoot() error {
 	ts, err := inspectjson.Parse(r.r, append(r.parserOptions, topt)...)
 	if err != nil {
 		return fmt.Errorf("parse: %w", err)
+	} else if ts == nil {
+		// the lax tokenizer accepts input which consists of a comment only
+		return fmt.Errorf("parse: no value")
 	}
 
 	opts := jsonldtype.ProcessorOptions{
